@@ -256,6 +256,71 @@ def run(ctx):
                 elif d[1] != "3" or d[13] != "-":
                     fails.append({"why": "decode of a %d-byte payload's credential failed with error %s (expected success or EMUNGE_BAD_LENGTH=3)" % (n, d[1]), "len": n})
                 ctx.sample({"lengthgate_payload": n, "cipher": c, "enc_err": e[1], "dec_err": d[1]}, limit=12)
+        # "metadata equal to what was requested" as the APPLICATION sees it: options set on a libmunge context, read back from the
+        # decoding context (munge_encode/munge_decode marshal every field a second time); three routes per request:
+        # library -> library, library -> wire client, wire client -> library
+        def lm_fields(d):
+            return dict(err=int(d[1]), cipher=int(d[2]), mac=int(d[3]), zip=int(d[4]), ttl=int(d[5]), t0=int(d[6]), t1=int(d[7]), uid=int(d[8]),
+                        gid=int(d[9]), au=int(d[10]), ag=int(d[11]), len=int(d[12]), data=b"" if d[13] == "-" else bytes.fromhex(d[13]))
+
+        def lm_meta(route, c, m, z, data, ttl, au, ag, eu, eg, du, dg):
+            ctx.count(("lm-meta", route, c, m, z, len(data), ttl, au, ag, eu, eg))
+            dist["lm-meta"] = dist.get("lm-meta", 0) + 1
+            case = dict(route=route, cipher=c, mac=m, zip=z, len=len(data), ttl=ttl, auth_uid=au, auth_gid=ag, euid=eu, egid=eg, data_hex=data[:48].hex())
+            if route[0] == "L":
+                e = ask("E %s %d %d %d %d %d %d %d %d" % (data.hex() or "-", c, m, z, ttl, au, ag, eu, eg))
+                if len(e) < 3 or e[1] != "0":
+                    fails.append({"why": "round trip broken: munge_encode() of a supported request failed with error %s" % (e[1] if len(e) > 1 else "?"), **case})
+                    return
+                cred = bytes.fromhex(e[2])
+            else:
+                r, _ = rig.encode(cr.d.sock, uid=eu, gid=eg, cipher=c, mac=m, zip_=z, ttl=ttl, auth_uid=au, auth_gid=ag, data=data)
+                if r is None or r["error_num"] != 0:
+                    return
+                cred = r["data"].rstrip(b"\0")
+            if route[1] == "L":
+                f = lm_fields(ask("D %s %d %d" % (cred.hex(), du, dg)))
+            else:
+                q, _ = rig.decode(cr.d.sock, cred + b"\0", uid=du, gid=dg)
+                if q is None:
+                    fails.append({"why": "no DEC_RSP", **case})
+                    return
+                f = dict(err=q["error_num"], cipher=q["cipher"], mac=q["mac"], zip=q["zip"], ttl=q["ttl"], t0=q["time0"], t1=q["time1"], uid=q["cred_uid"],
+                         gid=q["cred_gid"], au=q["auth_uid"], ag=q["auth_gid"], len=q["data_len"], data=q["data"])
+            rc, rm, rz = resolve(c, m, z, len(data))
+            want_ttl = min(min(ttl, 3600) if ttl else 300, 3600)
+            bad = []
+            if f["err"] != 0:
+                bad.append("error %d" % f["err"])
+            else:
+                if f["data"] != data or f["len"] != len(data):
+                    bad.append("payload differs (len %d vs %d)" % (f["len"], len(data)))
+                if (f["uid"], f["gid"]) != (eu, eg):
+                    bad.append("identity %s vs %s" % ((f["uid"], f["gid"]), (eu, eg)))
+                if (f["cipher"], f["mac"]) != (rc, rm):
+                    bad.append("cipher/mac %s vs %s" % ((f["cipher"], f["mac"]), (rc, rm)))
+                if f["zip"] not in ((rz, 0) if rz else (0,)):
+                    bad.append("zip %d vs requested %d" % (f["zip"], rz))
+                if f["ttl"] != want_ttl:
+                    bad.append("ttl %d vs %d" % (f["ttl"], want_ttl))
+                if (f["au"], f["ag"]) != (au, ag):
+                    bad.append("restrictions %s vs %s" % ((f["au"], f["ag"]), (au, ag)))
+                if f["t0"] != cr.now or f["t1"] != cr.now:
+                    bad.append("encode/decode times %s vs %d" % ((f["t0"], f["t1"]), cr.now))
+            if bad:
+                fails.append({"why": "round trip broken (%s): %s" % ({"LL": "munge_encode -> munge_decode", "LW": "munge_encode -> wire decode",
+                                                                       "WL": "wire encode -> munge_decode"}[route], "; ".join(bad)), **case})
+        lm_cases = [(c, m, z) for c in (0, 1, 2, 3, 4, 5) for m in (1, 2, 3, 4, 5, 6) for z in ZIPS]
+        lm_cases = [t for t in lm_cases if MACLEN.get(resolve(*t, 1)[1], 0) >= KEYLEN.get(resolve(*t, 1)[0], 99)]
+        rng.shuffle(lm_cases)
+        for i, (c, m, z) in enumerate(lm_cases if ctx.thorough else lm_cases[:36]):
+            n = rng.choice([0, 1, rng.randrange(2, 64), rng.randrange(64, 3000), rng.randrange(3000, 70000)])
+            data = payload(rng, rng.choice(["zeros", "text", "random"]), n)
+            ttl = rng.choice([0, 1, 60, 299, 301, 3599, 3600, 3601, 99999, 2 ** 31 - 1, 2 ** 32 - 1])
+            eu, eg = rng.choice([(0, 0), (1000, 1001), (65534, 65533), (2 ** 31 + 5, 2 ** 31 + 6), (2 ** 32 - 2, 2 ** 32 - 3)])
+            au, ag, du, dg = rng.choice([(ANY, ANY, 7, 8), (7, ANY, 7, 9), (ANY, 8, 6, 8), (7, 8, 7, 8), (0, 0, 0, 0), (2 ** 31 + 1, 2 ** 31 + 2, 2 ** 31 + 1, 2 ** 31 + 2),
+                                         (ANY, ANY, 0, 0)])
+            lm_meta(("LL", "LW", "WL")[i % 3], c, m, z, data, ttl, au, ag, eu, eg, du, dg)
         p.stdin.close()
         p.wait()
         # "when first decoded": the application's ONE munge_decode() call, also when a reply is lost on the way and the library
